@@ -3,6 +3,7 @@
 From Coq Require Import Strings.String Floats.SpecFloat.
 Require Import Model.Base Model.Syntax Model.F64 Model.Lexer Model.Builder Model.Value Model.Context Model.Eval
                Model.Interface Model.InterfaceDefs Gen.Interface Model.InterfaceGen.
+Require Import Spec.RefEval Proofs.C11.
 
 Section WithOracle.
 Variable O : std_oracle.
@@ -151,3 +152,36 @@ Proof.
   - intros H. right. exists w. destruct t, w; cbn in H; try discriminate; inversion H; repeat split.
   - cbn. intros H. left. exact H.
 Qed.
+
+(* C11 seen through the entry points: on a tree without assignment operators the mutable-context and the
+   shared-context entry point of every result type return the same answer, leave the same context and make the
+   same user-function calls; the context-free one answers as the shared one on the empty context *)
+Section ModesAgree.
+Variable O : std_oracle.
+
+Lemma node_modes_agree (t : etype) (n : node) (c : ctx) (lg : log) :
+  no_assign n = true ->
+  run_node_entry O MMut t n c lg = run_node_entry O MRo t n c lg.
+Proof.
+  intros H. unfold run_node_entry. rewrite (agree_static O n c lg H).
+  destruct (eval_ro O n c lg) as [r lg']. reflexivity.
+Qed.
+
+Lemma node_free_is_ro_on_empty (t : etype) (n : node) (c : ctx) (lg : log) :
+  no_assign n = true ->
+  run_node_entry O MFree t n c lg = (fst (fst (run_node_entry O MRo t n empty_hashmap [])), c, lg).
+Proof.
+  intros H. unfold run_node_entry. rewrite (agree_static O n empty_hashmap [] H).
+  destruct (eval_ro O n empty_hashmap []) as [r lg']. reflexivity.
+Qed.
+
+Lemma entry_modes_agree (l l' : elevel) (t : etype) (s : str) (n : node) (c : ctx) (lg : log) :
+  translation_complete = true ->
+  build_operator_tree s = Ok n -> no_assign n = true ->
+  run_entry_gen O l MMut t s c lg = run_entry_gen O l' MRo t s c lg.
+Proof.
+  intros T B H. rewrite (entry_is_node_entry O l MMut t s n c lg T B), (entry_is_node_entry O l' MRo t s n c lg T B).
+  apply node_modes_agree. exact H.
+Qed.
+
+End ModesAgree.
